@@ -258,6 +258,7 @@ pub fn profile(name: &str) -> Cfg
             bump(&mut c, &[(K::Kill, 9), (K::Despawn, 7), (K::Revoke, 7), (K::ReturnErr, 4), (K::Direct, 8), (K::Now, 8)]);
             c.steps = (2, 8);
             c.pct_self_target = 45;
+            if name == "C11" { c.signals = true; c.d_driver[D::Sig as usize] = 10; c.d_driver[D::Gc as usize] = 8; c.hierarchy_pct = 25; c.modes = [25, 45, 30]; }
         }
         "C14" =>
         {
@@ -646,7 +647,21 @@ pub fn generate(seed: u64, base: &Cfg) -> Program
                 {
                     sig_count[s] -= 1;
                     steps.push(Step::Direct(WOp::SigDrop(s as u8)));
-                    if sig_count[s] == 0 { steps.push(Step::Direct(WOp::Gc)); if g.r.chance(30) { steps.push(Step::Direct(WOp::Gc)); } }
+                    if sig_count[s] == 0
+                    {
+                        // sometimes further signal ops (possibly bringing another signal to zero) come before the collection
+                        if g.r.chance(40)
+                        {
+                            for _ in 0..g.r.range(1, 3)
+                            {
+                                let s2 = g.r.below(4) as usize;
+                                if !sig_used[s2] { sig_used[s2] = true; sig_count[s2] = 1; let slot = g.r.below(nslots as u64) as Slot; steps.push(Step::Direct(WOp::SigPrepare(s2 as u8, slot))); }
+                                else if sig_count[s2] > 0 { if g.r.chance(30) { sig_count[s2] += 1; steps.push(Step::Direct(WOp::SigClone(s2 as u8))); } else { sig_count[s2] -= 1; steps.push(Step::Direct(WOp::SigDrop(s2 as u8))); } }
+                            }
+                        }
+                        steps.push(Step::Direct(WOp::Gc));
+                        if g.r.chance(30) { steps.push(Step::Direct(WOp::Gc)); }
+                    }
                 }
                 continue;
             }
